@@ -915,6 +915,13 @@ FirstK(p, xs, want, i) ==
   ELSE IF i > Len(xs) THEN Len(xs) + 1
   ELSE FirstK(p, xs, IF PrI(p, xs[i]) THEN want - 1 ELSE want, i + 1)
 
+RECURSIVE FirstCum(_, _, _, _)
+\* least prefix length of xs whose concat-mapped lists hold `want` elements (Len+1 if there are fewer)
+FirstCum(g, xs, want, i) ==
+  IF want <= 0 THEN i - 1
+  ELSE IF i > Len(xs) THEN Len(xs) + 1
+  ELSE FirstCum(g, xs, want - Len(GnL(g, xs[i])), i + 1)
+
 RECURSIVE Need(_, _, _)
 \* number of `next` calls (elements + possibly the exhausting call) that node n's subtree performs on
 \* its from_iter when its consumer wants `want` outputs (Inf = runs to completion)
@@ -930,9 +937,14 @@ Need(cfg, n, want) ==
               IF want >= Inf THEN Need(cfg, nd.ups[1], Inf)
               ELSE LET k == FirstK(nd.p, xs, want, 1) IN
                    Need(cfg, nd.ups[1], IF k > Len(xs) THEN Inf ELSE k)
+         \* map-then-flatten: the outer list is advanced only when the inner lists handed out so far are used up
+         [] nd.kind = "flatmap" ->
+              IF want >= Inf THEN Need(cfg, nd.ups[1], Inf)
+              ELSE LET k == FirstCum(nd.g, xs, want, 1) IN
+                   Need(cfg, nd.ups[1], IF k > Len(xs) THEN Inf ELSE k)
 
 IsLinearUnary(cfg) ==
-  /\ \A n \in 1..Len(cfg.nodes) : cfg.nodes[n].kind \in {"from_iter", "map", "filter", "scan", "take", "skip"}
+  /\ \A n \in 1..Len(cfg.nodes) : cfg.nodes[n].kind \in {"from_iter", "map", "filter", "scan", "take", "skip", "flatmap"}
   /\ Cardinality({n \in 1..Len(cfg.nodes) : cfg.nodes[n].kind = "from_iter"}) = 1
 
 C06(cfg, obs) ==
@@ -965,7 +977,8 @@ C06(cfg, obs) ==
   {W("C06", "runaway", e, obs[e].to, cfg, "") : e \in {e \in Idx(obs) : obs[e].k = "runaway"}}
   \cup
   \* each iterable is cloned once (one subscription) and advanced once per element delivered plus
-  \* once to discover exhaustion: for linear pipelines the exact number is computable
+  \* once to discover exhaustion: for linear pipelines (unary stages and map-then-flatten; the inner
+  \* iterables of the latter are not instrumented) the exact number is computable
   (IF IsLinearUnary(cfg) /\ Cardinality(nexts) # Need(cfg, cfg.root, Inf)
    THEN {W("C06", "next_count", Len(obs), K, cfg, "")} ELSE {})
   \cup
